@@ -68,7 +68,7 @@ theorem placeFold_spec (slot : Nat) : ∀ (l : List Nat) (P : Pack),
       · by_cases hl : ∃ y ∈ l, slot + (P.A.st y).input.toNat + 1 = i
         · simp [hl, hi]
         · by_cases ha : slot + (P.A.st a).input.toNat + 1 = i
-          · simp only [hl, hi, ha, false_and, if_false, or_false, and_self, if_true, true_and]
+          · simp only [hl, hi, ha, false_and, if_false, or_false, and_self, if_true]
             rw [← ha]
             have : slot + (P.A.st a).input.toNat + 1 - slot = (P.A.st a).input.toNat + 1 := by omega
             rw [this]
